@@ -96,6 +96,8 @@ def bounded_flows(reg, tier, seed):
                 flow.response = mitmproxy.http.Response.make(418, b"teapot", {})
             elif self.b == "rewrite_url":
                 flow.request.url = "http://rewritten.example/x"
+            elif self.b == "custom" and getattr(self, "custom", None):
+                self.custom(flow)
             elif self.b == "raise":
                 raise RuntimeError("addon failure")
             elif self.b == "take_raise":
@@ -242,6 +244,40 @@ def bounded_flows(reg, tier, seed):
                 fail("flows/handback", "flow of a vanished region was not handed back on release", {"case": "dead-region"})
         except Exception as e:  # noqa
             fail("flows/handback", f"releasing a flow whose region is gone raised {type(e).__name__}: {e}", {"case": "dead-region"})
+        # an addon's rewrite of a request for an asset wrapper capability (the main process itself rewrites the host of those):
+        # what is handed back carries the addon's path / query, on the asset server's host
+        from mitmproxy.test import tflow as _tflow, tutils as _tutils
+        import urllib.parse as _up
+        region.update_caps({"ViewerAsset": "http://assets.example/va", "GetTexture": "http://assets.example/tex"})
+        for capname, newq, stream in itertools.product(("ViewerAsset", "GetTexture"), ("asset_id=bbbb", "texture_id=cccc&x=1"), (False, True)):
+            evals += 1
+            seen.add(("wrapper-rewrite", capname, newq, stream))
+            wurl = region.register_wrapper_cap(capname)
+            wp = _up.urlsplit(wurl)
+
+            def _rewrite(flow, newq=newq, stream=stream):
+                flow.request.url = flow.request.url.split("?")[0] + "/sub?" + newq
+                if not stream:
+                    flow.can_stream = False
+            a.b = "custom"
+            a.custom = _rewrite
+            a.taken = []
+            wf = _tflow.tflow(req=_tutils.treq(host=wp.hostname, port=wp.port or 80, scheme=wp.scheme.encode(),
+                                               path=(wp.path or "") + "/item?asset_id=aaaa", authority=wp.netloc.encode()), resp=False)
+            wf.metadata["cap_data_ser"] = SerializedCapData()
+            exc, back = h.event("request", wf)
+            a.custom = None
+            inp = {"cap": capname, "addon_rewrites_query_to": newq, "can_stream": stream}
+            if exc is not None or len(back) != 1:
+                fail("flows/handback", f"wrapper-cap request handed back {len(back)} times (exception: {exc!r})", inp)
+                continue
+            mf = HTTPFlow.from_state(back[0][2])
+            got = mf.request.url
+            if mf.response is not None and mf.response.status_code == 307:
+                got = mf.response.headers.get("Location", "")
+            gp = _up.urlsplit(got)
+            if gp.query != newq or not gp.path.endswith("/sub") or gp.netloc != "assets.example":
+                fail("flows/rewrite-wrapper", f"addon rewrote the wrapper-cap request to .../sub?{newq}; handed back: {got}", inp)
         # end to end through the proxy-side addon: the real SLMITMAddon hook queues the event, the real pump handles it, the real
         # callback pump applies what came back - the flow mitmproxy holds must be released then, carrying the addon's rewrite
         from unittest import mock
@@ -331,7 +367,8 @@ def bounded_caps(reg, tier, seed):
             for step in range(rng.randrange(4, 16)):
                 ri = rng.randrange(2)
                 region = h.session.regions[ri]
-                op = rng.choice(["grant", "grant", "regrant", "regrant", "temp", "proxy", "proxy_again", "lookup", "lookup", "resolve", "resolve_temp"])
+                op = rng.choice(["grant", "grant", "regrant", "regrant", "temp", "proxy", "proxy_again", "lookup", "lookup", "resolve", "resolve_temp",
+                                 "reseed", "reseed"])
                 evals += 1
                 if op in ("grant", "regrant"):
                     name = rng.choice(["Foo", "Bar", "FooBar"])
@@ -348,6 +385,18 @@ def bounded_caps(reg, tier, seed):
                     region.update_caps({name: url})
                     ref[ri].setdefault(name, []).insert(0, ("NORMAL", url))
                     ops.append((op, ri, name, url))
+                elif op == "reseed":
+                    # the region is announced again (teleport back, EnableSimulator / EstablishAgentCommunication) with a seed
+                    # capability URL: a new one, the current one, or one it had earlier - the one announced last is the Seed now
+                    seeds = [u_ for t_, u_ in ref[ri]["Seed"]]
+                    url = rng.choice([f"https://sim{ri}.example/seed/{run}-{step}", seeds[0], rng.choice(seeds)])
+                    got_region = h.session.register_region(region.circuit_addr, seed_url=url)
+                    ops.append((op, ri, url))
+                    if got_region is not region:
+                        fail("caps/by-name", "announcing a known region again gave a different region object", {"ops": [str(o) for o in ops[-6:]]})
+                    if url != seeds[0]:
+                        ref[ri]["Seed"].insert(0, ("NORMAL", url))
+                    check_by_name(ri, ops)
                 elif op == "temp":
                     url = f"https://sim{ri}.example/upload/{run}-{step}" + rng.choice(["", "", "/"])
                     region.register_cap("Uploader", url, CapType.TEMPORARY)
